@@ -104,6 +104,7 @@ class MultiTypeMap(dict):
         self.tiebreaks = {}
         self.dependent = {}
         self.type_tuples = {}
+        self.sigs = {}
         self.empty = MISSING
         self.key_error = key_error
         self.name = name
@@ -116,6 +117,14 @@ class MultiTypeMap(dict):
         candidates = None
         nargs = len([t for t in obj_t_tup if not isinstance(t, tuple)])
         names = {t[0] for t in obj_t_tup if isinstance(t, tuple)}
+
+        if not obj_t_tup:
+            # No argument at all: every handler that requires none applies
+            candidates = {
+                handler
+                for handler, sig in self.sigs.items()
+                if sig.req_pos == 0 and not sig.req_names
+            }
 
         for i, cls in enumerate(obj_t_tup):
             if isinstance(cls, tuple):
@@ -159,7 +168,7 @@ class MultiTypeMap(dict):
             Candidate(
                 handler=c,
                 priority=self.priorities.get(c, 0),
-                specificity=tuple(specificities[c]),
+                specificity=tuple(specificities.get(c, ())),
                 tiebreak=self.tiebreaks.get(c, 0),
             )
             for c in candidates
@@ -224,6 +233,7 @@ class MultiTypeMap(dict):
         self.priorities[handler] = sig.priority
         self.tiebreaks[handler] = sig.tiebreak
         self.type_tuples[handler] = obj_t_tup
+        self.sigs[handler] = sig
         self.dependent[handler] = any(
             is_dependent(t[1] if isinstance(t, tuple) else t) for t in obj_t_tup
         )
@@ -394,13 +404,6 @@ class MultiTypeMap(dict):
                 return self[obj_t_tup]
             else:
                 raise self.key_error(real_tup, ())
-
-        if not obj_t_tup:
-            if self.empty is MISSING:  # pragma: no cover
-                # Might not be reachable because of codegen
-                raise self.key_error(obj_t_tup, ())
-            else:
-                return self.empty[0]
 
         self.resolve(obj_t_tup)
         if obj_t_tup in self.errors:
